@@ -4,7 +4,7 @@ task_done / join with or without deadlines, fire-next-timer, cancel, same-iterat
 `accepted`, `delivered`, `done` are history variables of the model (tied to the implementation by wrapping
 `_put` / `_get` in the harness).
 -/
-import TornadoModel.C35.Lemmas
+import TornadoModel.C35.Refine5
 namespace TornadoModel.C35
 open TornadoModel.C33 (FState Ev Timer isPend)
 
@@ -286,14 +286,34 @@ theorem putters_fifo (s : St) (p : Nat × Nat) (ps : List (Nat × Nat)) (h : (co
   obtain ⟨pre, h1, h2⟩ := dropWhile_split (fun p : Nat × Nat => !isPend s.futs p.2) s.putters p ps h
   exact ⟨pre, h1, fun a ha => by simpa using h2 a ha⟩
 
-/-! ### refinement to the sequential specification (stated, not proved: tie-only, see docs/C35.md) -/
+/-! ### refinement to the sequential specification -/
 
-/-- same results and same resolutions, in the same order, as the sequential queue of `Spec.lean`; this is
-where "blocked getters and putters are served in arrival order" and "timed-out operations have no effect"
-live.  Exercised on every run (impl ≟ Model, impl ⊨ Spec). -/
-def refines_spec_goal : Prop :=
-  ∀ (d : Disc) (m : Nat) (ops : List Op),
+/-- same results and same resolutions, in the same order, as the sequential queue of `Spec.lean`, for every
+discipline, maxsize and op sequence; this is where "blocked getters and putters are served in arrival order"
+and "timed-out operations have no effect" live.  Proof: forward simulation (`Refine1`–`Refine5.lean`) along
+`absF` (live entries of the deques, timers of live futures; for the priority queue the Spec's item list is a
+permutation of the sorted heap content) under the invariants `Inv`, `Inv2`, `TInv`, `SNotDue`. -/
+theorem refines_spec (d : Disc) (m : Nat) (ops : List Op) :
     (run (init d m) ops).2.map (fun o => (o.res, o.evs)) =
-      (Spec.run (Spec.init d m) ops).2.map (fun o => (o.res, o.evs))
+      (Spec.run (Spec.init d m) ops).2.map (fun o => (o.res, o.evs)) := by
+  have h := run_sim (bd_init d m) ops
+  rw [absF_init] at h
+  exact h.symm
+
+/-- after every history the Spec's state is the abstraction of the model's state: its wait lists are the live
+entries of the model's deques, its item list is the model's container (a permutation of it for the heap) -/
+theorem refines_spec_state (d : Disc) (m : Nat) (ops : List Op) :
+    ∃ its, (Spec.run (Spec.init d m) ops).1 = absF (after d m ops) its ∧
+      ItemsRel d (after d m ops).items its := by
+  obtain ⟨its, hbd, hst⟩ := run_sim_state (bd_init d m) ops
+  rw [absF_init] at hst
+  refine ⟨its, hst, ?_⟩
+  have := hbd.rel.items
+  rwa [disc_after] at this
+
+example : (run (init .prio 1) [.put 3 none, .put 1 (some 9), .join (some 2), .get (some 2), .getNowait, .taskDone,
+      .raceTaskDone, .taskDone]).2.map (fun o => (o.res, o.evs)) =
+    [(.unit, [(0, .result 0)]), (.unit, []), (.unit, []), (.unit, [(1, .result 0), (3, .result 1)]), (.val 3, []),
+     (.unit, []), (.unit, [(2, .timeout)]), (.valueError, [])] := by decide
 
 end TornadoModel.C35
